@@ -5,7 +5,7 @@ import seqxrun
 import jsonoracle
 
 PROP = "C13"
-LEN = {"quick": 2, "thorough": 3}
+LEN = {"quick": 3, "thorough": 3}
 NSH = 16
 
 
